@@ -19,6 +19,8 @@ class Ty:
     def __repr__(self):
         if self.kind in ('abs', 'obj'):
             return self.name
+        if self.kind == 'map' and self.name:
+            return 'DefaultMap[%s]' % ','.join(map(repr, self.args))
         if self.args:
             return '%s[%s]' % (self.kind.capitalize(), ','.join(map(repr, self.args)))
         return self.kind.capitalize()
@@ -105,7 +107,7 @@ def join(a, b):
     if {a.kind, b.kind} == {'seq', 'tuple'}:
         return Seq(cjoin(a.args[0], b.args[0]))
     if a.kind == b.kind == 'map':
-        return Map(cjoin(a.args[0], b.args[0]), cjoin(a.args[1], b.args[1]))
+        return Ty('map', (cjoin(a.args[0], b.args[0]), cjoin(a.args[1], b.args[1])), a.name or b.name)
     if a.kind == b.kind == 'obj':
         return Ty('obj', (), '|'.join(sorted(set(a.name.split('|')) | set(b.name.split('|')))))
     if {a.kind, b.kind} == {'int', 'bool'}:
@@ -171,6 +173,8 @@ class TyEnv:
                 return Set(args[0])
             if head in ('Map', 'OMap'):
                 return Map(args[0], args[1])
+            if head == 'DefaultMap':
+                return Ty('map', (args[0], args[1]), 'defaultlist')
             if head == 'Opt':
                 return Opt(args[0])
             if head == 'Obj':
